@@ -25,6 +25,10 @@ allvars == <<vars, cfgVars, tvars>>
 TrIPSeq == <<"ip1", "ip2", "ip3", "ip4", "ip5", "ip6", "ip7", "ip8", "ip101", "ip102", "ip103">>
 Has(e, f) == f \in DOMAIN e
 ToSet(s) == {s[i] : i \in 1..Len(s)}
+\* result of a finished operation (a panicking operation has neither field)
+ResOk(e) == Has(e, "res") /\ Has(e.res, "ok") /\ e.res.ok
+ResFail(e) == Has(e, "res") /\ Has(e.res, "ok") /\ ~e.res.ok
+ResWait(e) == Has(e, "res") /\ Has(e.res, "wait") /\ e.res.wait
 
 (* ---------------------------------------------------------------- log -> model values *)
 StateKeys == {"mem", "store", "pools", "cm", "alive", "pods", "lpods", "pevq", "work", "fev", "sts", "dp", "poolobj",
@@ -115,7 +119,7 @@ NextMatches(w, id, e) ==
 
 \* the nodes a finished filter offered are those the model's filter offers
 FilterResMatches(w, e) ==
-    (e.typ = "filter" /\ Has(e, "res") /\ e.res.ok) =>
+    (e.typ = "filter" /\ ResOk(e)) =>
         LET pn == ops[e.op].loc.podname IN pn \in DOMAIN w.filtered /\ w.filtered[pn].nodes = ToSet(e.res.nodes)
 
 Hint(e) == IF Has(e, "ret") /\ Has(e.ret, "ips") THEN [ips |-> e.ret.ips] ELSE [x |-> 0]
@@ -217,7 +221,7 @@ WinNext(g, e) ==
       THEN [k |-> "filter", pod |-> e.pod, uid |-> e.uid, op |-> e.op, nodes |-> {}, cand |-> ToSet(e.nodes), mem0 |-> mem, node |-> "", synced |-> FALSE]
     ELSE IF e.ev = "Step" /\ wn.k \in {"filter", "bind"} /\ e.op = wn.op /\ e.f = 0 /\ ~Has(e, "crashed")
       THEN IF ~Has(e, "res") THEN wn
-           ELSE IF wn.k = "filter" /\ e.res.ok THEN [wn EXCEPT !.k = "bindable", !.nodes = ToSet(e.res.nodes)]
+           ELSE IF wn.k = "filter" /\ ResOk(e) THEN [wn EXCEPT !.k = "bindable", !.nodes = ToSet(e.res.nodes)]
            ELSE NoWin
     ELSE IF e.ev = "StartBind" /\ wn.k = "bindable" /\ e.pod = wn.pod /\ e.uid = wn.uid /\ e.node \in wn.nodes
       THEN [wn EXCEPT !.k = "bind", !.op = e.op, !.node = e.node,
@@ -244,9 +248,13 @@ GhostNext(e, w) ==
                  THEN [g4b EXCEPT !.orphan = g4b.orphan \cup g4b.assigned[e.op]] ELSE g4b
         g4 == IF e.ev = "Step" /\ e.call = "UnAssignIP" /\ RetOk(e) /\ e.args.ip \notin DOMAIN w.cloud
                 THEN [g4c EXCEPT !.orphan = g4c.orphan \ {e.args.ip}] ELSE g4c
-        rel == {w.mem[ip].key : ip \in {x \in DOMAIN w.mem : ~IsFree(w.mem[x]) /\ w.mem[x].key.pod # "" /\
-                                                              ImmReleasable(w.mem, w.mem[x].key, w.sts, w.dp)}}
-    IN [g4 EXCEPT !.everRel = (g4.everRel \cup rel) \ (IF e.ev = "CreatePod" THEN {k \in g4.everRel : k.pod = e.pod} ELSE {}),
+        \* a releasable deployment key is remembered together with the number of IPs its app held at that moment: the
+        \* "more IPs than replicas" condition is about that number, and a later release must find the same number
+        cnt(m, k) == IF k.kind = "dp" THEN Cardinality({y \in DOMAIN m : HasPrefix(m[y].key, KeyPrefixOf(k))}) ELSE 0
+        rel == {[key |-> w.mem[ip].key, n |-> cnt(w.mem, w.mem[ip].key)] :
+                  ip \in {x \in DOMAIN w.mem : ~IsFree(w.mem[x]) /\ w.mem[x].key.pod # "" /\
+                                                 ImmReleasable(w.mem, w.mem[x].key, w.sts, w.dp)}}
+    IN [g4 EXCEPT !.everRel = (g4.everRel \cup rel) \ (IF e.ev = "CreatePod" THEN {k \in g4.everRel : k.key.pod = e.pod} ELSE {}),
                   !.win = WinNext(g, e)]
 
 StepViolations(e, w) ==
@@ -265,7 +273,7 @@ StepViolations(e, w) ==
         byApi == isStep /\ e.op \in ghost.apiops
         unassign == isStep /\ e.call = "UnAssignIP"
         win == ghost.win
-        winFilterDone == isStep /\ win.k = "filter" /\ e.op = win.op /\ e.f = 0 /\ Has(e, "res") /\ e.res.ok /\ win.pod \in DOMAIN pods
+        winFilterDone == isStep /\ win.k = "filter" /\ e.op = win.op /\ e.f = 0 /\ ResOk(e) /\ win.pod \in DOMAIN pods
         wp == IF win.pod \in DOMAIN pods THEN pods[win.pod] ELSE NoPod
         winHeld == IF win.pod \in DOMAIN pods THEN KeyIPs(win.mem0, KeyOf(wp)) ELSE {}
     IN
@@ -290,16 +298,22 @@ StepViolations(e, w) ==
            e.ev \notin {"Crash", "Restart"} /\ ~byApi /\ ~Has(e, "crashed") /\
            ~(isStep /\ e.call = "ConfigurePool") /\ e.ev # "DeliverFev" /\
            \E ip \in freed :
-              LET k == mem[ip].key  pl == mem[ip].policy IN
+              \* the policy is the one the owning pod identity declares (the stored copy may have been lost, e.g. by a restart)
+              LET k == mem[ip].key
+                  pl == IF k.pod \in DOMAIN Specs THEN (IF Specs[k.pod].pool # "" THEN 2 ELSE Specs[k.pod].policy) ELSE mem[ip].policy IN
               \/ k.pod = ""                                             \* reserved under an app / pool prefix: API only
               \/ ~Gone(pods, k, mem[ip].uid, ip)                          \* still held by a live pod
               \/ pl = 2 \/ k.pool # ""                                  \* never / pool: API only
-              \/ pl = 1 /\ Supports(k, 1) /\ ~(k \in ghost.everRel \/ ImmReleasable(mem, k, sts, dp)))
+              \/ pl = 1 /\ Supports(k, 1) /\
+                 ~([key |-> k, n |-> IF k.kind = "dp" THEN Cardinality({y \in DOMAIN mem : HasPrefix(mem[y].key, KeyPrefixOf(k))}) ELSE 0] \in ghost.everRel
+                   \/ ImmReleasable(mem, k, sts, dp)))
     \cup V("NoLeakAtQuiescence",
            e.ev = "Quiesce" /\ w.alive /\
            \E ip \in DOMAIN w.mem :
               LET m == w.mem[ip]  k == m.key IN
               /\ ~IsFree(m) /\ k.pod # "" /\ ~m.lab /\ Gone(P, k, m.uid, ip)
+              \* an allocation that carries no uid is kept for the pod identity: it is not a leak while a live pod of that name exists
+              /\ ~(m.uid = "" /\ k.pod \in DOMAIN P /\ P[k.pod].phase # "Done")
               /\ \/ m.policy = 0 /\ k.pool = ""
                  \/ m.policy = 1 /\ k.pool = "" /\ Supports(k, 1) /\ ImmReleasable(w.mem, k, w.sts, w.dp)
                  \/ m.policy = 1 /\ ~Supports(k, 1))
@@ -320,7 +334,7 @@ StepViolations(e, w) ==
                \/ i > Len(e.args.info)
                \/ \E pl \in DOMAIN pools : e.args.ann[i] \in pools[pl].ips /\ e.args.info[i] # pools[pl].info)
     \cup V("FilterImpliesBind",          \* filter offered the node, nothing else happened, no fault: bind succeeds (or waits for the old pod)
-           isStep /\ win.k = "bind" /\ e.op = win.op /\ e.f = 0 /\ win.synced /\ Has(e, "res") /\ ~e.res.ok /\ ~e.res.wait)
+           isStep /\ win.k = "bind" /\ e.op = win.op /\ e.f = 0 /\ win.synced /\ ResFail(e) /\ ~ResWait(e))
     \cup V("HolderOfferedRoutableOnly",  \* a pod that already holds an IP is only offered nodes from which that IP is routable
            winFilterDone /\ \E n \in ToSet(e.res.nodes) : \E ip \in winHeld : NodeSub[n] \notin SubnetsOf(pools, ip))
     \cup V("FreshOfferedExactly",        \* a fresh default-policy pod is offered exactly the candidates with a free routable IP
@@ -353,6 +367,9 @@ StepViolations(e, w) ==
             IF isStep /\ e.call = "AssignIP" /\ e.args.ip \in ghost.orphan THEN "rebind-after-failed-bind" ELSE "")
     \cup V("LiveAssignedToOwnNode",
            CloudOn /\ bindOk /\ \E ip \in ann : ip \notin DOMAIN w.cloud \/ w.cloud[ip] # node)
+    \cup V("LiveStaysAssigned",          \* every IP of a bound live pod is (stays) assigned to that pod's node
+           CloudOn /\ \E p \in LiveBound(pods) \cap LiveBound(P) : pods[p].uid = P[p].uid /\ \E ip \in ToSet(pods[p].ann) :
+               ip \in DOMAIN cloud /\ cloud[ip] = pods[p].node /\ ip \notin DOMAIN w.cloud)
     \cup VT("UnassignBeforeHandover",
             CloudOn /\ e.ev \notin {"Crash", "Restart"} /\ \E ip \in freed \cup rekeyed : ip \in DOMAIN cloud,
             IF \A ip \in (freed \cup rekeyed) \cap (DOMAIN cloud) : ip \in ghost.orphan THEN "rebind-after-failed-bind" ELSE "")
@@ -387,14 +404,14 @@ Reset(e) ==
 \* how often the C06 predicates had their antecedent (coverage, reported with the verdict)
 WinStats(st, e) ==
     LET win == ghost.win
-        fd == e.ev = "Step" /\ win.k = "filter" /\ e.op = win.op /\ e.f = 0 /\ Has(e, "res") /\ e.res.ok /\ win.pod \in DOMAIN pods
+        fd == e.ev = "Step" /\ win.k = "filter" /\ e.op = win.op /\ e.f = 0 /\ ResOk(e) /\ win.pod \in DOMAIN pods
         wp == IF win.pod \in DOMAIN pods THEN pods[win.pod] ELSE NoPod
         held == IF win.pod \in DOMAIN pods THEN KeyIPs(win.mem0, KeyOf(wp)) ELSE {}
         bd == e.ev = "Step" /\ win.k = "bind" /\ e.op = win.op /\ e.f = 0 /\ win.synced /\ Has(e, "res")
         b(x) == IF x THEN 1 ELSE 0 IN
     [st EXCEPT !.winfilter = @ + b(fd), !.winholder = @ + b(fd /\ held # {}),
                !.winfresh = @ + b(fd /\ held = {} /\ wp.policy = 0 /\ wp.pool = "" /\ Len(wp.ranges) = 0),
-               !.winbind = @ + b(bd), !.winbindwait = @ + b(bd /\ ~e.res.ok /\ e.res.wait)]
+               !.winbind = @ + b(bd), !.winbindwait = @ + b(bd /\ ResFail(e) /\ ResWait(e))]
 
 Skippable(e) ==      \* lines of operations the model dropped after a divergence, or cut by a crash
     \/ e.ev = "Step" /\ e.op \notin DOMAIN ops
